@@ -480,8 +480,13 @@ func (o *ObjectSchema) applySubObjectDefaultValues(propertyID string, property *
 		return
 	}
 	data := map[string]any{}
-	if _, ok := rawData[propertyID]; ok {
-		data = rawData[propertyID].(map[string]any)
+	if declared, ok := rawData[propertyID]; ok {
+		declaredMap, isMap := declared.(map[string]any)
+		if !isMap {
+			// The declared default is not an object; unserializing the property reports that as an error.
+			return
+		}
+		data = declaredMap
 	}
 	subObjectDefaults := subObject.GetDefaults()
 	for k, v := range subObjectDefaults {
